@@ -18,7 +18,12 @@ def main(a):
         t0 = time.time()
         d = mutate.scratch_copy()
         try:
-            apply(d, v["file"], v["old"], v["new"])
+            if "revert" in v:
+                import subprocess
+                diff = subprocess.check_output(["git", "-C", "/repo", "show", v["revert"]])
+                subprocess.run(["patch", "-R", "-p1", "-s"], input=diff, cwd=d, check=True)
+            else:
+                apply(d, v["file"], v["old"], v["new"])
             for (f, o, n) in v.get("extra", []):
                 apply(d, f, o, n)
             pids = [v["pid"]] + v.get("also", [])
